@@ -19,6 +19,10 @@ import (
 type RaceScenario struct {
 	Family string          `json:"family"`
 	Inner  json.RawMessage `json:"inner"`
+	// Judge: the inner scenario's oracles are evaluated (a property whose
+	// scenarios come from several families); false for C16, where only race
+	// reports and panics count.
+	Judge bool `json:"judge,omitempty"`
 
 	sc Scenario
 }
@@ -47,17 +51,27 @@ func (r *RaceScenario) inner() Scenario {
 
 var raceFamilies = map[string]func(json.RawMessage) (Scenario, error){}
 
-func (r *RaceScenario) Cfg() sim.Config                     { return r.inner().Cfg() }
-func (r *RaceScenario) Setup(k *sim.Kernel)                 { r.inner().Setup(k) }
-func (r *RaceScenario) Check(k *sim.Kernel) []sim.Violation { return nil }
+func (r *RaceScenario) Cfg() sim.Config     { return r.inner().Cfg() }
+func (r *RaceScenario) Setup(k *sim.Kernel) { r.inner().Setup(k) }
+func (r *RaceScenario) Check(k *sim.Kernel) []sim.Violation {
+	if r.Judge {
+		return r.inner().Check(k)
+	}
+	return nil
+}
 func (r *RaceScenario) PostDrain(k *sim.Kernel, left []string) []sim.Violation {
+	if r.Judge {
+		return r.inner().PostDrain(k, left)
+	}
 	return nil
 }
 func (r *RaceScenario) NonTrivial(k *sim.Kernel) bool { return r.inner().NonTrivial(k) }
 func (r *RaceScenario) Shrinks() []Scenario {
 	var out []Scenario
 	for _, c := range r.inner().Shrinks() {
-		out = append(out, wrapRace(r.Family, c))
+		w := wrapRace(r.Family, c)
+		w.Judge = r.Judge
+		out = append(out, w)
 	}
 	return out
 }
@@ -68,6 +82,26 @@ func wrapRace(family string, sc Scenario) *RaceScenario {
 		panic(err)
 	}
 	return &RaceScenario{Family: family, Inner: raw, sc: sc}
+}
+
+// wrapMix wraps a scenario of another family whose own oracles count.
+func wrapMix(family string, sc Scenario) *RaceScenario {
+	w := wrapRace(family, sc)
+	w.Judge = true
+	return w
+}
+
+// decodeEither decodes a wrapped scenario (it has a "family" member) or a plain one.
+func decodeEither(plain func(json.RawMessage) (Scenario, error)) func(json.RawMessage) (Scenario, error) {
+	return func(raw json.RawMessage) (Scenario, error) {
+		var probe struct {
+			Family string `json:"family"`
+		}
+		if json.Unmarshal(raw, &probe) == nil && probe.Family != "" {
+			return decodeRace(raw)
+		}
+		return plain(raw)
+	}
 }
 
 func decodeRace(raw json.RawMessage) (Scenario, error) {
